@@ -336,6 +336,23 @@ def ref_in_closure(start, s):
     return out, p
 
 
+def ref_retried(start, s):
+    """r = e '<' e | e '>' e | e ; e = e '+' t | t: the left-recursive rule is invoked again at the SAME position by every
+    alternative of its caller (after backtracking): each time it has to give the grown result"""
+    if start == 'e':
+        return ref_direct(start, s)
+    left = chain_left(s, 0, _n, '+')
+    if left is None:
+        return None
+    v, p = left
+    for op in '<>':
+        if p < len(s) and s[p] == op:
+            right = chain_left(s, p + 1, _n, '+')
+            if right is not None:
+                return [v, op, right[0]], right[1]
+    return v, p
+
+
 def ref_blanks(start, s):
     """e = e '+' t | t ; t = /n/ with blanks: skipped before '+' and at the entry of t (lower case)"""
     def ws(p):
@@ -455,6 +472,8 @@ SCHEMAS = (
      {'e'}, ('e',), 'n+-', ref_group),
     ('in-closure-of-caller', (('s', ('closure', seq(C('e'), T(';')))), _lr('e', '+', 't'), ('t', N)), {'e'}, ('s', 'e'), 'n+;',
      ref_in_closure),
+    ('retried-at-the-same-position', (('r', ch(seq(C('e'), T('<'), C('e')), seq(C('e'), T('>'), C('e')), C('e'))), _lr('e', '+', 't'), ('t', N)),
+     {'e'}, ('r', 'e'), 'n+<>', ref_retried),
     ('blanks', (_lr('e', '+', 't'), ('t', N)), {'e'}, ('e',), 'n+ ', ref_blanks),
     ('blanks-token-rule', (_lr('e', '+', 'T'), ('T', N)), {'e'}, ('e',), 'n+ ', ref_blanks_token_rule),
 )
